@@ -965,6 +965,11 @@ class SyncObj(object):
                     # Partial snapshot: nothing of the local log was verified against the leader yet
                     return
                 matchIdx = self.__loadDumpFile(clearJournal=True)
+                if matchIdx is False:
+                    # The snapshot could not be loaded: nothing was installed and nothing of the local log was
+                    # verified against the leader. No acknowledgement, the commit index stays where it is.
+                    self.__forceLogCompaction = True
+                    return
                 if matchIdx is not None:
                     # Stale snapshot (the leader acted on an outdated reply): its last entry is in the local log
                     # already. State and log are kept (entries above it may be committed on the strength of this
@@ -1471,6 +1476,7 @@ class SyncObj(object):
             self.__onSetCodeVersion(self.__enabledCodeVersion)
         except:
             logger.exception('failed to load full dump')
+            return False
         return None
 
     def __updateClusterConfiguration(self, newNodes):
